@@ -19,7 +19,7 @@ func init() {
 			"R-C20-2 Serve starts each task with eg.Go on an errgroup.WithContext group, Run gets a context derived from the group's, a Run error is returned to the group, every return of Serve follows eg.Wait and reports its error, the signal task is part of the waited set; " +
 			"R-C20-3 signalTask.Run: terminator.set(sig) precedes cancel() on every path, sig is the value received from sigC, neither is called on the ctx.Done arm, terminator.term only accessed under mu; " +
 			"R-C20-4 Ready is notified only after wg.Wait(), each per-task goroutine receives from t.Ready() before its deferred wg.Done(); " +
-			"R-C20-5 serve(): 40 attempts, cancelable wait, ErrServerClosed⇒nil, *net.OpError⇒retry, other⇒error",
+			"R-C20-5 serve(): 40 attempts, cancelable wait, ErrServerClosed⇒nil, *net.OpError⇒retry, other⇒error R-C20-3 also: Server.t is written by NewServer only; R-C20-4 is decided on the paths of the functions Serve actually starts (go / eg.Go), closures or method values.",
 		Assumptions: []string{
 			"Go type checker and go/ssa construction are correct",
 			"errgroup.WithContext cancels the derived context when a function passed to Go returns a non-nil error, and Wait returns the first such error after all functions returned",
